@@ -71,6 +71,16 @@ def build_menu(w, sc):
                     m.append(("assign", [[flat[0]], [flat[1]]], [(pid, half, 1), (pid, pool.avail_cpu_pool - half, 1)]))   # fractional sizes that fit exactly
                     m.append(("assign", [[flat[0]], [flat[1]]], [(pid, 1, pool.avail_ram_pool), (pid, 1, 1)]))
                     m.append(("assign", [[flat[0]], [flat[1]]], [(pid, 1, 1), (pid, 1, 1)]))
+    # sizes that are not sizes: zero or negative CPU / RAM, alone and as the partner of an over-sized assignment whose
+    # excess it cancels in the batch total
+    if opsets:
+        for cpu, ram in ((1, 0), (1, -r0), (0, r0), (-1, r0)):
+            m.append(("assign", [opsets[0]], [(0, cpu, ram)]))
+    if len(flat) >= 2:
+        pool = ex.pools[0]
+        if pool.avail_cpu_pool >= 2:
+            m.append(("assign", [[flat[0]], [flat[1]]], [(0, 1, pool.max_ram_pool + r0), (0, 1, -(pool.max_ram_pool - pool.avail_ram_pool) - r0)]))
+            m.append(("assign", [[flat[0]], [flat[1]]], [(0, pool.max_cpu_pool + 1, r0), (0, -1 - (pool.max_cpu_pool - pool.avail_cpu_pool), r0)]))
     # dependency / lifecycle violations
     running_now = [c for p in ex.pools for c in p.active_containers]
     for p in w.pipelines:
